@@ -68,6 +68,12 @@ def run(tier, seed):
         # symmetric on near pairs (whatever the verdict)
         g2 = ulps(f["gamma"], rng.choice([1, 2, 5, 4000, 10**6]))
         b.emit("mnew u %s:g:%s:%s" % (kind, f2h(g2), f2h(f["off"])), "ok"); j = b.emit("meq m u"); b.emit("meq u m", ("same", j))
+        # ... and on pairs whose offsets are next to each other, one of them possibly exactly 0 (0.1+0.2-0.3 is not 0)
+        for o1, o2 in ((0.0, rng.choice([5.551115123125783e-17, -5.551115123125783e-17, 1e-13, -3e-14, 1e-300, 5e-324, 2e-12, 9.9e-13])),
+                       (f["off"], ulps(f["off"], rng.choice([1, -1, 3, 5000])) if f["off"] != 0 else 1e-15),
+                       (-7.5, -7.5), (-7.5, ulps(-7.5, rng.choice([1, 2, -1, 4000])))):
+            b.emit("mnew za %s:g:%s:%s" % (kind, f2h(f["gamma"]), f2h(o1)), "ok"); b.emit("mnew zb %s:g:%s:%s" % (kind, f2h(f["gamma"]), f2h(o2)), "ok")
+            j = b.emit("meq za zb", "1" if o1 == o2 else None); b.emit("meq zb za", ("same", j))
         # undefined mapping flags are refused by the decoder
         for sub in (2, 4, 5, 17, 63):
             b.emit("braw ub %02x%s" % ((sub << 2) | 2, "00" * 16), "ok"); b.emit("mdec x ub", "err unknown-mapping")
